@@ -1,6 +1,7 @@
 import Nsq.Proofs.Num
 import Nsq.Proofs.PQ
 import Nsq.Proofs.Timing
+import Nsq.Proofs.Tick
 import Nsq.Tie.Num
 import Nsq.Tie.PQ
 /-!
@@ -352,6 +353,17 @@ theorem uniqRands_perm (q n : Nat) (r : Nat → Nat) :
       (n ≤ q → l.Perm (List.range n)) :=
   Nsq.Proofs.Timing.uniqRands_perm q n r
 
+/-- **Every channel, every tick** (at most `QueueScanSelectionCount` channels in the scan loop's
+list): one tick of `queueScanLoop` never panics, and afterwards NO channel holds anything due at
+the clock reading its worker took — so in that regime lateness is at most one scan interval plus
+the scan time (wall-clock part: partial). With more channels the tick scans `min(q, n)` distinct
+ones and leaves the others untouched (`Proofs.Tick.tick_general`). -/
+theorem every_channel_scanned_each_tick (q : Nat) (cs : List Chan) (r : Nat → Nat) (now : Nat → Int)
+    (hn : cs.length ≤ q) (hinv : ∀ c ∈ cs, ChanInv c) :
+    ∃ cs', queueScanTick q cs r now = some cs' ∧ cs'.length = cs.length ∧
+      ∀ i (hi : i < cs'.length), ChanInv cs'[i] ∧ nothingDue cs'[i] (now i) = true :=
+  Nsq.Proofs.Tick.tick_scans_every_channel q cs r now hn hinv
+
 /-- Lateness in the model: a due entry is released by the FIRST scan of its queue at or after its
 deadline (consequence of `scan_complete`); wall-clock lateness is the partial part. -/
 theorem released_by_first_scan_after_deadline (c : Chan) (h : ChanInv c) (t : Int) (id : Nat) (p : Int)
@@ -387,6 +399,10 @@ example : Nsq.Proofs.PQ.Inv (push (push (push #[] 1 30) 2 10) 3 20) := by
 example : ¬ HeapOrd #[⟨1, 30, 0⟩, ⟨2, 10, 1⟩] := by rw [← heapOrdOk_iff]; decide
 example : touchDeadline 95 0 60 100 = 100 ∧ touchDeadline 10 0 60 100 = 70 := by decide
 example : uniqRands 20 3 (fun i => 7 * i + 2) = some [2, 0, 1] := by decide +kernel
+example : ∃ cs', queueScanTick 20 Nsq.Proofs.Tick.twoChans (fun i => 7 * i + 2) (fun _ => 10) = some cs' ∧
+    cs'.length = Nsq.Proofs.Tick.twoChans.length ∧
+    ∀ i (hi : i < cs'.length), ChanInv cs'[i] ∧ nothingDue cs'[i] 10 = true :=
+  every_channel_scanned_each_tick 20 _ _ _ (by decide) Nsq.Proofs.Tick.twoChans_inv
 /-- an arbitrary (non-heap) array: the scan still releases nothing early -/
 example : ((scanInFlight { ifpq := #[⟨1, 50, 0⟩, ⟨2, 5, 1⟩], ifmap := [⟨1, 1, 0⟩, ⟨2, 1, 0⟩] } 10).released.map (·.id)) = [] := by
   decide +kernel
